@@ -39,19 +39,51 @@ PutAll(mm, kv, i) == IF i > Len(kv) THEN mm ELSE PutAll(Put(mm, kv[i][1], kv[i][
 Ascending(s)  == \A i \in 1..(Len(s) - 1) : s[i] < s[i + 1]
 Descending(s) == \A i \in 1..(Len(s) - 1) : s[i] > s[i + 1]
 
-(* the map a logged projection describes (used when adopting instead of checking) *)
-Logged(p) == [k \in {x \in 1..Len(p.gets) : p.gets[x] > 0} |-> p.gets[k]]
+(* the map a logged (full) projection describes (used when adopting instead of checking) *)
+Logged(p) == [k \in {p.pk[x] : x \in {y \in 1..Len(p.pk) : p.pg[y] > 0}} |->
+                p.pg[CHOOSE x \in 1..Len(p.pk) : p.pk[x] = k]]
+
+RECURSIVE Pow2(_)
+Pow2(n) == IF n = 0 THEN 1 ELSE 2 * Pow2(n - 1)
+
+(* C03: the white-box dump of a Tree (nodes in preorder: <<key, red, left, right, parent>>, indices into *)
+(* the list, 0 = nil) is a valid red-black tree holding exactly the iteration order                     *)
+RECURSIVE InOrd(_, _)
+InOrd(N, n) == IF n = 0 THEN <<>> ELSE InOrd(N, N[n][3]) \o <<N[n][1]>> \o InOrd(N, N[n][4])
+RECURSIVE BlackDepth(_, _)                     \* number of black nodes from n up to the root (one chain, no branching)
+BlackDepth(N, n) == IF n = 0 THEN 0 ELSE BlackDepth(N, N[n][5]) + (1 - N[n][2])
+Red(N, n) == n # 0 /\ N[n][2] = 1
+NodesOK(p) ==
+  LET N == p.nodes IN
+  Len(N) > 0 =>
+    /\ Len(N) = p.len
+    /\ \A n \in 1..Len(N) : N[n][3] \in 0..Len(N) /\ N[n][4] \in 0..Len(N) /\ N[n][5] \in 0..Len(N)
+    /\ N[1][5] = 0 /\ N[1][2] = 0                                                  \* root: no parent, black
+    /\ \A n \in 1..Len(N) : /\ (N[n][3] # 0 => N[N[n][3]][5] = n)                  \* parent links
+                            /\ (N[n][4] # 0 => N[N[n][4]][5] = n)
+                            /\ (Red(N, n) => ~Red(N, N[n][3]) /\ ~Red(N, N[n][4]))  \* no red node has a red child
+    /\ Cardinality({BlackDepth(N, n) : n \in {x \in 1..Len(N) : N[x][3] = 0 \/ N[x][4] = 0}}) <= 1   \* equal black height on every path
+    /\ InOrd(N, 1) = p.it                                                          \* the structure is what iteration yields
+TreeShapeOK(p) ==
+  (p.kind = "Tree" /\ Len(p.rb) > 0) =>
+    /\ p.rb[1] = p.len                                   \* node count
+    /\ p.rb[3] = 1 /\ p.rb[4] = 1 /\ p.rb[5] = 1 /\ p.rb[6] = 1
+    /\ (p.rb[2] <= 28 => Pow2(p.rb[2]) <= (p.len + 1) * (p.len + 1))      \* height <= 2*log2(n+1)
+    /\ p.rb[2] <= 60
+    /\ NodesOK(p)
 
 (* the projection p of one container equals the abstract map mm *)
 ProjOK(p, mm, kd) ==
   /\ p.kind = kd
   /\ p.len = Cardinality(DOMAIN mm)                                   \* len = number of bindings
-  /\ Len(p.it) = p.len /\ ToSet(p.it) = DOMAIN mm                      \* iteration: every key exactly once
-  /\ p.bw = Reverse(p.it)                                              \* backward = exact reverse
-  /\ (kd = "Tree" => (Ascending(p.it) \/ Descending(p.it)))            \* strictly monotone key order
-  /\ \A k \in 1..Len(p.gets) :                                         \* get / mem for present AND absent keys
-       /\ p.gets[k] = (IF k \in DOMAIN mm THEN mm[k] ELSE 0)
-       /\ p.mems[k] = (IF k \in DOMAIN mm THEN 1 ELSE 0)
+  /\ (p.full = 1 =>
+        /\ Len(p.it) = p.len /\ ToSet(p.it) = DOMAIN mm                \* iteration: every key exactly once
+        /\ p.bw = Reverse(p.it)                                        \* backward = exact reverse
+        /\ (kd = "Tree" => (Ascending(p.it) \/ Descending(p.it))))     \* strictly monotone key order
+  /\ \A i \in 1..Len(p.pk) :                                           \* get / mem for present AND absent keys
+       /\ p.pg[i] = (IF p.pk[i] \in DOMAIN mm THEN mm[p.pk[i]] ELSE 0)
+       /\ p.pm[i] = (IF p.pk[i] \in DOMAIN mm THEN 1 ELSE 0)
+  /\ TreeShapeOK(p)
 
 AllProjOK(e, mnew, knew) ==
   /\ {e.objs[i].o : i \in 1..Len(e.objs)} = DOMAIN mnew
@@ -139,6 +171,7 @@ Assign == /\ IsEv("assign") /\ E.exc = ""
           /\ Step(With(m, E.o, m[E.src]), kind)            \* deep: E.src itself is re-projected and must be unchanged
 Copy == /\ IsEv("copy") /\ E.exc = ""
         /\ Step(With(m, E.o, m[E.src]), With(kind, E.o, kind[E.src]))
+Snap == IsEv("snap") /\ Step(m, kind)
 Del == /\ IsEv("del")
        /\ Step(Without(m, E.o), Without(kind, E.o))
 
@@ -148,7 +181,7 @@ Bad == /\ IsEv("bad")
                   [] OTHER -> {"ValueError"})
 
 Next == \/ Reset \/ End \/ New \/ Set \/ RemOk \/ RemFail \/ GetOk \/ GetFail \/ Mem
-        \/ ResizeClear \/ ResizeReserve \/ ResizeFail \/ Assign \/ Copy \/ Del \/ Bad
+        \/ ResizeClear \/ ResizeReserve \/ ResizeFail \/ Assign \/ Copy \/ Snap \/ Del \/ Bad
 
 Spec == Init /\ [][Next]_vars
 
